@@ -213,7 +213,7 @@ func (in *Interp) callBuiltin(caller *frame, callpos token.Pos, fn *ssa.Builtin,
 	case "String":
 		sd, ok := args[0].(sliceData)
 		if !ok {
-			unsupported("unsafe.String on %T", args[0])
+			unsupported("unsafe.String on %T in %s", args[0], caller.fn)
 		}
 		n := in.concretiseInt(args[1], "unsafe.String len")
 		if sd.st != nil {
@@ -227,7 +227,7 @@ func (in *Interp) callBuiltin(caller *frame, callpos token.Pos, fn *ssa.Builtin,
 	case "Slice":
 		sd, ok := args[0].(sliceData)
 		if !ok {
-			unsupported("unsafe.Slice on %T", args[0])
+			unsupported("unsafe.Slice on %T in %s", args[0], caller.fn)
 		}
 		n := in.concretiseInt(args[1], "unsafe.Slice len")
 		if sd.st != nil {
